@@ -17,7 +17,7 @@
 //                        prefix hs=<okA><okB> sec=<hex A's secret>/<hex B's secret>
 //   reg <secret hex32>   register_shared_secret at both nodes at the current instant; plant the session
 //   adv <ns>             advance the virtual clock
-//   tick <a|b>           Node::tick()
+//   tick <a|b|ab>        Node::tick() (ab: both nodes at the same clock reading, observed once afterwards)
 //   rot <a|b>            Node::rotate_session_key(peer)      prefix rot=<0|1>
 //   msg <ab|ba>          sender signs an Acknowledge with its session key and send_secure()s it; the frame is read
 //                        off the receiver's socket, decrypted with the receiver's Session::key as receive_loop
@@ -213,7 +213,12 @@ int main(int argc, char** argv) {
             return observe();
         }
         if (op == "tick" && t.size() == 2) {
-            (t[1] == "a" ? *W->A : *W->B).tick();
+            if (t[1] == "ab") {  // both nodes tick at one and the same clock reading; one observation afterwards
+                W->A->tick();
+                W->B->tick();
+            } else {
+                (t[1] == "a" ? *W->A : *W->B).tick();
+            }
             return observe();
         }
         if (op == "rot" && t.size() == 2) {
